@@ -110,6 +110,20 @@ def pass_check(recipe, obj, lts, ctxs, envs, part, U):
                         dict(wit, after=repr(ei)[:1500]),
                     )
                     ok = False
+        # a second call in the same process on a label-preserving rebuild of the same expression (what replace() and
+        # every rewriting pass produce: Variable(new content, old label)): nothing may be remembered per label
+        from ufl.classes import Variable
+        from ufl.corealg.traversal import unique_pre_traversal
+
+        if any(isinstance(n, Variable) for n in unique_pre_traversal(obj)):
+            t = U.t
+            obj2 = run("replace", lambda o: ufl.replace(o, {t["v"]: t["w"], t["f"]: 2 * t["f"] + 1, t["A"]: 3 * t["A"]}), obj)
+            if obj2 is not None:
+                ei2 = run("expand_indices[rebuilt variables]", expand_indices, obj2)
+                part.inc("transitions")
+                if ei2 is not None:
+                    wit2 = dict(wit, before=repr(obj2)[:1500], rebuilt_with="replace(e, {v: w, f: 2*f+1, A: 3*A})")
+                    ok &= P.check_pass("expand_indices[rebuilt variables]", obj2, ei2, envs, part, PID, key, wit2)
         # compositions of length 2
         if rct is not None:
             e2 = run("expand_indices.remove_component_tensors", expand_indices, rct)
